@@ -302,6 +302,13 @@ reclaim_data(struct cache *cache, struct cache_search *cs)
 		unsigned n = cache->ngprobe;
 		while (n--)
 			eprobe = cache->ce[eprobe].prev;
+		/* Take the data from the first unused entry that has any,
+		 * so entries without data stay at the beginning of the
+		 * unused partition. */
+		n = 2 * cache->cap - cache->nprec - cache->ngprec -
+			cache->nprobe - cache->ngprobe - cache->ninflight;
+		while (--n && cache->ce[cache->ce[eprobe].prev].data)
+			eprobe = cache->ce[eprobe].prev;
 		entry = &cache->ce[eprobe];
 	} else {
 		entry = evict_entry(cache, cs, 0);
